@@ -373,7 +373,7 @@ impl Scenario for Mirror {
         }
         // poller body factory
         fn poller<'a>(
-            bdd: Bdd,
+            make: Box<dyn FnOnce() -> Bdd + Send + 'a>,
             polls: &'a [u64],
             drop_after: Option<usize>,
             recs: &'a Mutex<Vec<PollRec>>,
@@ -395,8 +395,10 @@ impl Scenario for Mirror {
                     }
                 }
                 let _d = Done(my_done);
-                // declared after `_d`, hence dropped (channel ends closed) before the flag is set
-                let mut bdd = bdd;
+                // declared after `_d`, hence dropped (channel ends closed) before the flag is set.
+                // The store is created by its own thread, i.e. whenever the schedule first runs
+                // it: the channel it is attached to may already hold nodes.
+                let mut bdd = make();
                 for (i, t) in polls.iter().enumerate() {
                     if drop_after == Some(i) {
                         return; // peer drop mid-stream
@@ -450,9 +452,8 @@ impl Scenario for Mirror {
         }
         let dummy_done = AtomicBool::new(false);
         if has_relay {
-            let relay_bdd = Bdd::with_sender_receiver(s2, r1);
             bodies.push(poller(
-                relay_bdd,
+                Box::new(move || Bdd::with_sender_receiver(s2, r1)),
                 case.relay.as_ref().unwrap(),
                 case.drop_relay_after,
                 &relay_recs,
@@ -463,9 +464,8 @@ impl Scenario for Mirror {
                 &rebuild_issue,
                 latch_r.clone(),
             ));
-            let recv_bdd = Bdd::with_receiver(r2);
             bodies.push(poller(
-                recv_bdd,
+                Box::new(move || Bdd::with_receiver(r2)),
                 &case.recv,
                 case.drop_recv_after,
                 &recv_recs,
@@ -479,9 +479,8 @@ impl Scenario for Mirror {
         } else {
             drop(s2);
             drop(r2);
-            let recv_bdd = Bdd::with_receiver(r1);
             bodies.push(poller(
-                recv_bdd,
+                Box::new(move || Bdd::with_receiver(r1)),
                 &case.recv,
                 case.drop_recv_after,
                 &recv_recs,
